@@ -168,12 +168,28 @@ RECURSIVE[cnt.name()] = (cnt, _def_cnt)
 RECURSIVE[ssum.name()] = (ssum, _def_ssum)
 
 
+def _has_var(e, cache):
+    """does the term mention a bound (de Bruijn) variable?  `cache` lives for one unfold_instances call only (z3 ids are reused after collection)."""
+    k = e.get_id()
+    if k in cache:
+        return cache[k]
+    if z3.is_var(e):
+        r = True
+    elif z3.is_quantifier(e):
+        r = True            # conservatively: a term containing a quantifier is not unfolded as a ground application
+    else:
+        r = any(_has_var(c, cache) for c in e.children())
+    cache[k] = r
+    return r
+
+
 def unfold_instances(exprs, rounds=UNFOLD_ROUNDS, extra=None):
     """definitional unfolding of every recursive spec function at every ground application in exprs."""
     table = dict(RECURSIVE)
     if extra:
         table.update(extra)
     seen, out, todo, done_apps = set(), [], list(exprs), set()
+    var_cache = {}
     for _ in range(rounds):
         apps = []
 
@@ -185,10 +201,11 @@ def unfold_instances(exprs, rounds=UNFOLD_ROUNDS, extra=None):
                     continue
                 seen.add(x.get_id())
                 if z3.is_quantifier(x):
-                    continue          # bound variables: not ground
+                    stack.append(x.body())          # look inside: applications WITHOUT bound variables are ground and are unfolded too
+                    continue
                 if z3.is_app(x):
                     nm = x.decl().name()
-                    if nm in table and x.decl().eq(table[nm][0]) and x.get_id() not in done_apps:
+                    if nm in table and x.decl().eq(table[nm][0]) and x.get_id() not in done_apps and not _has_var(x, var_cache):
                         apps.append(x)
                         done_apps.add(x.get_id())
                     stack.extend(x.children())
@@ -228,3 +245,60 @@ def ind4_axioms():
     a0, a1, a2, a3, w = z3.Ints("i0_ i1_ i2_ i3_ iw_")
     return [z3.ForAll([a0, a1, a2, a3, w], ind4(a0, a1, a2, a3)[w] == z3.If(z3.Or(a0 == w, a1 == w, a2 == w, a3 == w), iv(1), iv(0)),
                       patterns=[ind4(a0, a1, a2, a3)[w]])]
+
+
+# ------------------------------------------------------------------ C14: leaf queries.  fm = one breadth-first step (flat map of the live successors, in
+# A<C<G<T order, over the first i entries of a list b); lev = d steps from a single vertex.  Array-valued, so the defining equations are
+# quantified over the position p only and are added per GROUND application (no recursion through a trigger).
+fmn = z3.Function("fmn", A2s, A, I, I, I)          # fmn(acc, b, bs, i)  = number of successors of b[bs .. bs+i)
+fma = z3.Function("fma", A2s, A, I, I, A)          # fma(acc, b, bs, i)[p] = p-th of them
+levn = z3.Function("levn", A2s, I, I, I)           # levn(acc, v, d) = number of d-step walks from v
+leva = z3.Function("leva", A2s, I, I, A)           # leva(acc, v, d)[p] = end point of the p-th of them (breadth-first, successor order)
+
+
+def _rdeg(row):
+    return z3.If(row[0] >= 0, 1, 0) + z3.If(row[1] >= 0, 1, 0) + z3.If(row[2] >= 0, 1, 0) + z3.If(row[3] >= 0, 1, 0)
+
+
+def _rsucc(row, q):
+    """the q-th live entry of the row (q < degree)."""
+    out = row[3]
+    for j in (2, 1, 0):
+        before = z3.Sum([z3.If(row[c] >= 0, 1, 0) for c in range(j)]) if j else iv(0)
+        out = z3.If(z3.And(row[j] >= 0, before == q), row[j], out)
+    return out
+
+
+def _def_fmn(ap):
+    acc, b, bs, i = ap.children()
+    return z3.And(z3.Implies(i <= 0, ap == 0), z3.Implies(i > 0, ap == fmn(acc, b, bs, i - 1) + _rdeg(acc[b[bs + i - 1]])))
+
+
+def _def_fma(ap):
+    acc, b, bs, i = ap.children()
+    p = z3.Int("p#fma")
+    prev_n = fmn(acc, b, bs, i - 1)
+    row = acc[b[bs + i - 1]]
+    from pyvc.sym import qforall
+    return z3.Implies(i > 0, qforall([p], z3.Implies(z3.And(0 <= p, p < fmn(acc, b, bs, i)),
+                                                     ap[p] == z3.If(p < prev_n, fma(acc, b, bs, i - 1)[p], _rsucc(row, p - prev_n))), [ap[p]]))
+
+
+def _def_levn(ap):
+    acc, v, d = ap.children()
+    return z3.And(z3.Implies(d <= 0, ap == 1), z3.Implies(d > 0, ap == fmn(acc, leva(acc, v, d - 1), iv(0), levn(acc, v, d - 1))))
+
+
+def _def_leva(ap):
+    from pyvc.sym import qforall
+    acc, v, d = ap.children()
+    p = z3.Int("p#leva")
+    return z3.And(z3.Implies(d <= 0, ap[0] == v),
+                  z3.Implies(d > 0, qforall([p], z3.Implies(z3.And(0 <= p, p < levn(acc, v, d)),
+                                                            ap[p] == fma(acc, leva(acc, v, d - 1), iv(0), levn(acc, v, d - 1))[p]), [ap[p]])))
+
+
+RECURSIVE[fmn.name()] = (fmn, _def_fmn)
+RECURSIVE[fma.name()] = (fma, _def_fma)
+RECURSIVE[levn.name()] = (levn, _def_levn)
+RECURSIVE[leva.name()] = (leva, _def_leva)
